@@ -485,10 +485,78 @@ def h_extremes(ctx):
                   (kind, nargs, repr(e)))
 
 
+def h_after_rejected(ctx):
+    """A packet that cannot be encoded (an argument outside 32 bits, a
+    negative one, a payload that is not bytes, a field outside its byte) is
+    rejected with an exception; the valid packet encoded next -- the same
+    object as before or another -- has exactly the documented bytes.
+    Concrete values through the real struct module."""
+    import struct as real_struct
+    from rig.machine_control.packets import SDPPacket, SCPPacket
+    bad = ctx.pick(["arg1 2**32", "arg2 -1", "arg3 str", "data not bytes",
+                    "cmd 2**16", "tag 256", "sdp data not bytes"])
+    nargs = ctx.pick([0, 2, 3])
+    data = ctx.pick([b"", b"\x05\x06\x07"])
+    args = [0x01020304, 0x0a0b0c0d, 0xf0e0d0c0][:nargs] + [None] * (3 - nargs)
+
+    def good():
+        return SCPPacket(True, 0x11, 1, 2, 3, 4, 5, 6, 7, 8, 0x1234, 0x4321,
+                         args[0], args[1], args[2], data)
+    want = (b"\0\0" + bytes([0x87, 0x11, (1 << 5) | 2, (3 << 5) | 4, 6, 5, 8,
+                             7]) + real_struct.pack("<2H", 0x1234, 0x4321) +
+            b"".join(real_struct.pack("<I", a) for a in args
+                     if a is not None) + data)
+    g = good()
+    try:
+        first = g.bytestring
+    except Exception as e:
+        ctx.prove(False, "encode-raised-on-documented-values", repr(e))
+        return
+    ctx.prove(first == want, "layout-extreme-values", ("before", first))
+    kw = dict(cmd_rc=1, seq=2, arg1=3, arg2=4, arg3=5, data=b"xy")
+    tag = 0
+    if bad == "arg1 2**32":
+        kw["arg1"] = 1 << 32
+    elif bad == "arg2 -1":
+        kw["arg2"] = -1
+    elif bad == "arg3 str":
+        kw["arg3"] = "3"
+    elif bad in ("data not bytes", "sdp data not bytes"):
+        kw["data"] = 7
+    elif bad == "cmd 2**16":
+        kw["cmd_rc"] = 1 << 16
+    elif bad == "tag 256":
+        tag = 256
+    rejected = False
+    try:
+        if bad.startswith("sdp"):
+            SDPPacket(False, tag, 0, 0, 0, 0, 0, 0, 0, 0, kw["data"]
+                      ).bytestring
+        else:
+            SCPPacket(False, tag, 0, 0, 0, 0, 0, 0, 0, 0, **kw).bytestring
+    except Exception as e:
+        rejected = True
+        ctx.observe(bad, type(e).__name__)
+    ctx.witness("rejected" if rejected else "accepted")
+    try:
+        again, other = g.bytestring, good().bytestring
+    except Exception as e:
+        ctx.prove(False, "encode-raised-on-documented-values", repr(e))
+        return
+    ctx.prove(again == want and other == want,
+              "layout-after-a-rejected-packet", (bad, nargs, again, other))
+    q = SCPPacket.from_bytestring(other, n_args=nargs)
+    ctx.prove((q.cmd_rc, q.seq, q.arg1, q.arg2, q.arg3, q.data) ==
+              (0x1234, 0x4321, args[0], args[1], args[2], data),
+              "roundtrip-after-a-rejected-packet", (bad, nargs))
+
+
 def units(tier, seed):
     thorough = tier == "thorough"
     us = [Unit("extreme field values (concrete)", h_extremes, {},
-               witnesses=("extremes",))]
+               witnesses=("extremes",)),
+          Unit("a rejected packet, then a valid one (concrete)",
+               h_after_rejected, {}, witnesses=("rejected",))]
     lens = tuple(range(0, 25 if thorough else 17))
     wlens = tuple(range(0, 17)) if thorough else (0, 5)
     dlens = tuple(range(10, 39 if thorough else 27))
